@@ -107,8 +107,10 @@ static bool parseScenario(const std::string & s)
 // one execution under the given strategy; returns false if it got stuck
 static bool execute(vs::Strategy * strategy, long execNo)
 {
-	static vs::Sched sched;
-	vs::S = &sched;
+	// a fresh scheduler per execution: threads of an earlier stuck execution stay parked on their own (leaked) scheduler
+	vs::Sched * schedp = new vs::Sched();
+	vs::Sched & sched = *schedp;
+	vs::S = schedp;
 	const int n = (int)g_prog.size();
 	sched.reset(n, strategy);
 	for(int i = 0; i < 16; ++i) vs::g_locksHeld[i] = 0;
@@ -147,6 +149,7 @@ static bool execute(vs::Strategy * strategy, long execNo)
 	// the main thread drains what is left and destroys the queue
 	for(int i = 0; i < 4; ++i) { evt("pb", 9, 1, 0, 0); bool r = q->process(); evt("pe", 9, 1, 0, r ? 1 : 0); if(! r) break; }
 	delete q; q = 0;
+	delete schedp;   // vs::S is replaced at the start of the next execution; the main thread never dereferences it in between
 	std::fprintf(g_out, "{\"e\":\"rs\",\"t\":9,\"a\":0,\"b\":%ld,\"r\":0,\"n\":%ld,\"s\":\"%s\"}\n", g_livePayload, execNo, taken.c_str());
 	return true;
 }
@@ -163,7 +166,7 @@ int main(int argc, char ** argv)
 	vs::CondVar::onEvent = [](const char *, int t) { evt("to", t, 0, 0, 0); };
 	std::string mode = argv[3];
 	long execs = 0, stuck = 0;
-	armWatchdog(600);
+	armWatchdog(300);
 	if(mode == "replay" || mode == "model") {
 		std::vector<int> sch; for(int i = 4; i < argc; ++i) sch.push_back(std::atoi(argv[i]));
 		if(mode == "replay") { vs::ReplayStrategy st; st.schedule = sch; if(! execute(&st, 0)) ++stuck; }
